@@ -161,7 +161,7 @@ func (ma *mergeAnalysis) ruleR10(c *Ctx) {
 				set := map[string]bool{}
 				for _, w := range s.ws {
 					if g := innermostGuard(mf.claimGuards(w.block())); g != nil {
-						set[fmt.Sprintf("%s@%p", g.callee.Name(), g.call)] = true
+						set[fmt.Sprintf("%s@%p", g.name(), g.call)] = true
 					} else {
 						set["claim-all"] = true
 					}
